@@ -14,7 +14,7 @@ from linear_operator.operators.diag_linear_operator import DiagLinearOperator
 from linear_operator.operators.root_linear_operator import RootLinearOperator
 
 from linear_operator.utils import sparse
-from linear_operator.utils.broadcasting import _pad_with_singletons
+from linear_operator.utils.broadcasting import _matmul_broadcast_shape, _pad_with_singletons
 from linear_operator.utils.generic import _to_helper
 from linear_operator.utils.getitem import _noop_index
 from linear_operator.utils.interpolation import left_interp, left_t_interp
@@ -415,6 +415,9 @@ class InterpolatedLinearOperator(LinearOperator):
         # We're using a custom matmul here, because it is significantly faster than
         # what we get from the function factory.
         # The _matmul_closure is optimized for repeated calls, such as for _solve
+
+        # the special case below multiplies elementwise, which would silently broadcast a 1 x 1 diagonal operator
+        _matmul_broadcast_shape(self.shape, other.shape)
 
         if isinstance(other, DiagLinearOperator):
             # if we know the rhs is diagonal this is easy
